@@ -21,7 +21,26 @@ class Viol(Exception):
         self.oracle, self.signature, self.detail = oracle, signature, detail
 
 
-MUTATING = ('append', 'iterappend', 'setitem', 'truncate', 'recreate', 'delete') + M.META_OPS
+MUTATING = ('append', 'iterappend', 'iterappend_fail', 'setitem', 'truncate', 'recreate', 'delete') + M.META_OPS
+
+
+class Boom(RuntimeError):
+    pass
+
+
+def failing_iterable(objs, how, raise_at=None):
+    """list/generator over objs; raises Boom before yielding item raise_at"""
+    if raise_at is None and how == 'list':
+        return list(objs)
+
+    def g():
+        for j, o in enumerate(objs):
+            if raise_at is not None and j == raise_at:
+                raise Boom('iterable failed (injected)')
+            yield o
+        if raise_at is not None and raise_at >= len(objs):
+            raise Boom('iterable failed (injected)')
+    return g()
 
 
 class ArrayHistory(Engine):
@@ -29,7 +48,7 @@ class ArrayHistory(Engine):
     prop = 'C03'
     oracles = ('model', 'fresh', 'prefix', 'reject')
     weights = dict(append=20, iterappend=12, setitem=12, truncate=14, mode=5, reopen=10,
-                   append_bad=6, truncate_bad=6, meta=0, recreate=0)
+                   append_bad=6, truncate_bad=6, meta=0, recreate=0, iterappend_fail=4)
     minops, maxops = 3, 25
     quick_runs = 4000
     thorough_runs = 120000
@@ -94,6 +113,10 @@ class ArrayHistory(Engine):
             n = rng.choice([0, 1, 2, 2, 3, 4])
             return {'op': 'iterappend', 'chunks': [self.gen_data(rng) for _ in range(n)],
                     'as': rng.choice(['list', 'generator', 'tuple'])}
+        if k == 'iterappend_fail':
+            n = rng.choice([1, 2, 3])
+            return {'op': 'iterappend_fail', 'chunks': [self.gen_data(rng) for _ in range(n)], 'pos': rng.randint(0, n),
+                    'how': rng.choice(['raise', 'badshape', 'unconvertible'])}
         if k == 'append_bad':
             return {'op': 'append', 'data': dict(self.gen_data(rng, rows=rng.choice([1, 2])), form='ndarray'),
                     'bad': rng.choice(['shape', 'rank+', 'rank-', 'unconvertible'])}
@@ -437,6 +460,41 @@ class _State:
         self.log('iterappend', 'ok', {'n': len(objs)})
         self.after_step(op)
 
+    def do_iterappend_fail(self, op):
+        """an iterappend whose iterable fails at position pos: the call raises and
+        the completely appended chunks remain (C09 semantics)"""
+        m = self.model
+        objs, exps = [], []
+        for d in op['chunks']:
+            obj, _ = D.build(d, trail=m.shape[1:], target_dtype=m.dtype)
+            e = self.model_cast(obj)
+            if e is None:
+                obj, _ = D.build(dict(d, form='ndarray'), trail=m.shape[1:], target_dtype=m.dtype)
+                e = self.model_cast(obj)
+            objs.append(obj)
+            exps.append(e)
+        pos = min(op['pos'], len(objs))
+        raise_at = None
+        if op['how'] == 'raise':
+            raise_at = pos
+        elif op['how'] == 'badshape':
+            tr = list(m.shape[1:])
+            tr = (tr[:-1] + [tr[-1] + 1]) if tr else [2]
+            objs = objs[:pos] + [np.zeros([1] + tr, dtype=m.dtype)] + objs[pos:]
+        else:
+            objs = objs[:pos] + [['x', 'y'] if m.ndim == 1 else object()] + objs[pos:]
+        prebytes = self.filebytes() if self.has('prefix') else None
+        exc = self.call(lambda: self.h.iterappend(failing_iterable(objs, 'generator', raise_at)))
+        if exc is None:
+            raise Viol('model.iterappend_fail', 'no_exception', f'how={op["how"]} pos={pos}')
+        self.model = np.concatenate([m] + exps[:pos]).astype(m.dtype, copy=False) if pos else m
+        self.probe('iterappend_failed_after_%d_chunks' % min(pos, 2))
+        if pos:
+            self.mutations_ok += 1
+        self.check_prefix(prebytes, grew=True)
+        self.log('iterappend_fail', 'raised', {'pos': pos, 'how': op['how']})
+        self.after_step(op)
+
     def resolve_index(self, ix):
         k = ix['k']
         if k == 'int':
@@ -598,10 +656,10 @@ class _State:
             obj = self.resolve_bad(op)[0] if 'bad' in op else D.build(op['data'], trail=m.shape[1:], target_dtype=m.dtype)[0]
             exp = self.model_cast(obj)
             return self.call(lambda: self.h.append(obj)), not (exp is not None and exp.shape[0] == 0)
-        if k == 'iterappend':
+        if k in ('iterappend', 'iterappend_fail'):
             objs = [D.build(d, trail=m.shape[1:], target_dtype=m.dtype)[0] for d in op['chunks']]
             exps = [self.model_cast(o) for o in objs]
-            eff = any(e is None or e.shape[0] > 0 for e in exps)
+            eff = True if k == 'iterappend_fail' else any(e is None or e.shape[0] > 0 for e in exps)
             it = objs if op.get('as', 'list') != 'generator' else (o for o in objs)
             return self.call(lambda: self.h.iterappend(it)), eff
         if k == 'setitem':
